@@ -98,6 +98,7 @@ def run_case(sh, s, d, case):
     feats = set()
     stable = {}                      # path -> (inode, sha1)
     removed_by_pack_ok = set()
+    packed_T = [None]                # snapshots at or before the last pack time carry no guarantee
 
     def content(name):
         return pending[name] if name in pending else committed.get(name)
@@ -160,7 +161,7 @@ def run_case(sh, s, d, case):
             if p not in files:
                 del stable[p]
         # every committed blob revision still in the storage reads back through a historical connection at its tid
-        keys = [k2 for k2 in got if content_at.get(k2) is not None]
+        keys = [k2 for k2 in got if content_at.get(k2) is not None and (packed_T[0] is None or k2[1] > packed_T[0])]
         if keys and rnd.random() < 0.3:
             (ho, ht) = rnd.choice(sorted(keys))
             htm = transaction.TransactionManager()
@@ -465,6 +466,7 @@ def run_case(sh, s, d, case):
                     return None
                 sh.count('packs')
                 trace.append('pack')
+                packed_T[0] = max(packed_T[0] or T, T)
                 if set(blob_files(blob_dir)) != before:
                     feats.add('pack-removed')
                 if kind == 'file':
